@@ -4,7 +4,8 @@
    No Extract Constant / other Extract Inductive directives.
    Run from /verif/ocaml/gen (files land in the current directory). *)
 From Coq Require Import ExtrOcamlBasic.
-From SC Require InstMgr P21Lex P21Enum P21Str P21Bin P21Sep P21Scan P21Skip P21Pass1 P21Syntax FileSev RecRead Append WorkSession Lazy PyAggr ExpErr GenFiles Hash GenBound PyGen Complex CxxAttrs ExpPP ExpParse ExpStr SuperIter ExprBuf.
+From SC Require InstMgr P21Lex P21Enum P21Str P21Bin P21Sep P21Scan P21Skip P21Pass1 P21Syntax FileSev RecRead Append WorkSession Lazy PyAggr ExpErr GenFiles Hash GenBound PyGen Complex CxxAttrs ExpPP ExpParse ExpStr SuperIter ExprBuf ErrBuf.
 From SC.gen Require NullTable WsLetters ErrTable ScannerRule HashConsts BoundRule PPRule StrSplit ScanRule ExprBound.
+From SC.gen Require ErrArena.
 Extraction Language OCaml.
-Separate Extraction InstMgr P21Lex P21Enum P21Str P21Bin P21Sep P21Scan P21Skip P21Pass1 P21Syntax FileSev RecRead NullTable Append WorkSession WsLetters Lazy PyAggr ExpErr ErrTable GenFiles ScannerRule Hash HashConsts GenBound BoundRule PyGen Complex CxxAttrs ExpPP ExpParse ExpStr StrSplit ScanRule SuperIter ExprBuf ExprBound.
+Separate Extraction InstMgr P21Lex P21Enum P21Str P21Bin P21Sep P21Scan P21Skip P21Pass1 P21Syntax FileSev RecRead NullTable Append WorkSession WsLetters Lazy PyAggr ExpErr ErrTable GenFiles ScannerRule Hash HashConsts GenBound BoundRule PyGen Complex CxxAttrs ExpPP ExpParse ExpStr StrSplit ScanRule SuperIter ExprBuf ExprBound ErrBuf ErrArena.
